@@ -6,6 +6,8 @@ inductive Ty where
   | unit | bool | int | nat | mutez | timestamp | string | bytes | address | chainId
   /-- `never` (no values), `key_hash` and `key` (opaque base58 text, like `address`) -/
   | never | keyHash | key
+  /-- `signature` (opaque base58 text) -/
+  | signature
   /-- `contract t` (a handle on an entrypoint of type `t`) and `operation` -/
   | contract (t : Ty) | operation
   | option (t : Ty)
@@ -15,6 +17,8 @@ inductive Ty where
   | lambda (a b : Ty)
   | map (k v : Ty)
   | set (t : Ty)
+  /-- `big_map k v` -/
+  | bigMap (k v : Ty)
   deriving DecidableEq, Repr, Inhabited
 
 mutual
@@ -26,7 +30,7 @@ mutual
     /-- strings are ASCII (pytezos asserts it): list of character codes -/
     | str (s : List Nat)
     | bytes (b : List Nat)
-    /-- `address` / `chain_id` / `key_hash` / `key`: opaque base58 text -/
+    /-- `address` / `chain_id` / `key_hash` / `key` / `signature`: opaque base58 text -/
     | atom (t : Ty) (s : List Nat)
     | pair (a b : Val)
     | some (v : Val)
@@ -45,6 +49,10 @@ mutual
     | opTransfer (source dest ep : List Nat) (amount : Int) (param : Val) (pty : Ty)
     | opDelegate (source : List Nat) (delegate : Option (List Nat))
     | opEmit (source tag : List Nat) (ty : Ty) (payload : Val)
+    /-- `big_map k v` inside one run: the bindings (`pair key value`, in key order) it denotes.  pytezos also keeps a
+    temporary id and the list of removed keys (the lazy diff: property C15's model); neither changes an answer of MEM / GET /
+    UPDATE / GET_AND_UPDATE on a map created in the run (no context value behind it) -/
+    | bigMap (k v : Ty) (items : List Val)
   inductive Instr where
     | seq (is : List Instr)
     | DROP | DROPN (n : Nat) | DUP | DUPN (n : Nat) | SWAP | DIG (n : Nat) | DUG (n : Nat)
@@ -74,6 +82,12 @@ mutual
     | TRANSFER_TOKENS | SET_DELEGATE | EMIT (tag : List Nat) (t : Ty)
     /- phase B (first half): serialization of the plain data classes -/
     | PACK
+    /- extension 3, phase 1: deserialization -/
+    | UNPACK (t : Ty)
+    /- phase 3: signature verification (the verification function is a parameter: `Hashes.checkSig`) -/
+    | CHECK_SIGNATURE
+    /- phase 2: big maps created in the run -/
+    | EMPTY_BIG_MAP (k v : Ty)
 end
 
 instance : Inhabited Val := ⟨.unit⟩
@@ -91,8 +105,13 @@ structure Hashes where
   /-- HASH_KEY: base58 text of a public key ↦ base58 text of its hash (`Key.from_encoded_key(k).public_key_hash()`:
   Base58Check decoding, BLAKE2b with a 20-byte digest, Base58Check encoding under the prefix of the curve) -/
   hashKey : List Nat → List Nat := fun _ => []
+  /-- CHECK_SIGNATURE: base58 text of a public key, base58 text of a signature, message ↦ does the signature verify
+  (`Key.from_encoded_key(k).verify(signature=s, message=m)` does not raise `ValueError`).  A parameter like the hash functions:
+  every theorem holds for every choice; the run instantiates it with a table of what `Key.verify` answers on the triples that
+  occur in the program (signature verification itself is property C07's subject) -/
+  checkSig : List Nat → List Nat → List Nat → Bool := fun _ _ _ => false
 
-instance : Inhabited Hashes := ⟨⟨fun _ => [], fun _ => [], fun _ => [], fun _ => [], fun _ => [], fun _ => []⟩⟩
+instance : Inhabited Hashes := ⟨⟨fun _ => [], fun _ => [], fun _ => [], fun _ => [], fun _ => [], fun _ => [], fun _ _ _ => false⟩⟩
 
 /-- execution environment (`ExecutionContext` getters) -/
 structure Env where
@@ -109,6 +128,10 @@ structure Env where
   minBlockTime : Int := 1
   /-- `context.get_voting_power(key_hash)`: voting power of every delegate (by the base58 text of its key hash) -/
   votingPower : List Nat → Int := fun _ => 0
+  /-- the reading of a *text* as a timestamp (UNPACK of a `timestamp` given in its readable form): `none` = not a timestamp
+  notation.  A *parameter* of the model, like the hash functions: every theorem holds for every choice; the run instantiates it
+  with a table of what pytezos' `optimize_timestamp` answers on the texts that occur (that function is property C11's subject) -/
+  readTimestamp : List Nat → Option Int := fun _ => none
   hashes : Hashes := default
   deriving Inhabited
 
@@ -193,6 +216,7 @@ def typeOf : Val → Ty
   | .lam a b _ => .lambda a b
   | .contract t _ => .contract t
   | .opTransfer .. | .opDelegate .. | .opEmit .. => .operation
+  | .bigMap k v _ => .bigMap k v
 
 /-! Address texts: `KT1…` / `tz1…`, optionally followed by `%entrypoint` (37 = `%`); no entrypoint means `default`. -/
 def defaultEp : List Nat := [100, 101, 102, 97, 117, 108, 116]      -- "default"
